@@ -254,7 +254,7 @@ func runC10(o Opts) error {
 	s.Extra["sessions_on_one_port"] = sessions + bursts
 	s.Extra["burst_sessions"] = 2 * bursts
 	if s.ReplayWants("listen-shutdown") {
-		listenStopChild(s)
+		listenStopChild(s, "crash", "hang", "dropped", "noerror")
 	}
 	return s.Close()
 }
